@@ -613,8 +613,8 @@ class EncodeCatRows(Filter[Iterable[Union[Any,Dense,Sparse]], Iterable[Union[Any
         if not catkeys:
             yield from rows
         else:
-            #cat_cols is list of numbers or list of lists
-            is_nums = isinstance(catkeys[0],int)
+            #cat_cols is list of keys (numbers or strings) or list of lists
+            is_nums = not isinstance(catkeys[0],list)
             for row in rows:
                 row = list(row) if isinstance(row,tuple) else copy(row) if isinstance(row,(list,dict)) else row.copy()
 
